@@ -437,3 +437,116 @@ Proof.
   intros outs. unfold process_outputs, spec_encoding. rewrite process_outputs_encoding_gen.
   destruct (last_some _ outs); reflexivity.
 Qed.
+
+(* ---- option selection: cdata-section-elements and indent ------------------------------------------------ *)
+Definition xmlish (r : sroot) : Prop := match r_method r with MNone | MXml => True | _ => False end.
+Definition attr_xmlish (a : oattr) : bool := match a with AMethod MHtml | AMethod MText => false | _ => true end.
+Definition attr_no_amount (a : oattr) : bool := match a with AIndentAmount _ => false | _ => true end.
+Definition cd_of (a : oattr) : list (list N) := match a with ACdataElems ns => ns | _ => [] end.
+Definition ind_of (a : oattr) : option bool := match a with AIndent b => Some b | _ => None end.
+
+Lemma apply_attr_cd : forall r a, xmlish r -> attr_xmlish a = true ->
+  xmlish (apply_attr r a) /\ r_cdata (apply_attr r a) = r_cdata r ++ cd_of a.
+Proof.
+  intros r a X A. unfold xmlish in *. destruct a; cbn in *; try (split; [exact X | rewrite app_nil_r; reflexivity]).
+  - destruct m; try discriminate; split; auto; rewrite app_nil_r; reflexivity.
+  - destruct (r_method r) eqn:E; try contradiction; cbn; rewrite ?E; split; auto.
+Qed.
+
+Lemma finish_cd : forall r, xmlish r -> xmlish (finish_output r) /\ r_cdata (finish_output r) = r_cdata r /\ finish_output r = r.
+Proof.
+  intros r X. unfold xmlish, finish_output in *. destruct (r_method r) eqn:E; try contradiction; rewrite ?E; auto.
+Qed.
+
+Lemma fold_attrs_cd : forall o r, xmlish r -> forallb attr_xmlish o = true ->
+  xmlish (fold_left apply_attr o r) /\ r_cdata (fold_left apply_attr o r) = r_cdata r ++ flat_map cd_of o.
+Proof.
+  induction o as [|a o IH]; intros r X A; cbn [fold_left flat_map forallb] in *.
+  - split; auto. rewrite app_nil_r. reflexivity.
+  - apply andb_true_iff in A. destruct A as [A1 A2].
+    destruct (apply_attr_cd r a X A1) as [X1 C1].
+    destruct (IH _ X1 A2) as [X2 C2]. split; auto. rewrite C2, C1, app_assoc. reflexivity.
+Qed.
+
+Lemma process_cd_gen : forall outs r, xmlish r -> forallb (forallb attr_xmlish) outs = true ->
+  r_cdata (fold_left (fun r o => finish_output (fold_left apply_attr o r)) outs r) = r_cdata r ++ flat_map cd_of (concat outs).
+Proof.
+  induction outs as [|o outs IH]; intros r X A; cbn [fold_left concat forallb] in *.
+  - cbn. rewrite app_nil_r. reflexivity.
+  - apply andb_true_iff in A. destruct A as [A1 A2].
+    destruct (fold_attrs_cd o r X A1) as [X1 C1].
+    destruct (finish_cd _ X1) as [X2 [C2 _]].
+    rewrite (IH _ X2 A2), C2, C1, flat_map_app, app_assoc. reflexivity.
+Qed.
+
+Theorem process_outputs_cdata : forall outs, forallb (forallb attr_xmlish) outs = true ->
+  r_cdata (process_outputs outs) = spec_cdata outs.
+Proof.
+  intros outs A. unfold process_outputs. rewrite process_cd_gen; auto. exact I.
+Qed.
+
+(* indent: no html/text method, no xalan:indent-amount: the flag is the last explicit indent attribute *)
+Definition ind_state (r : sroot) (last : option bool) : Prop :=
+  r_amount r = stylesheet_indent_amount_default /\ xmlish r /\
+  r_indent r = match last with Some true => IndYesExplicit | Some false => IndNoExplicit | None => IndNoImplicit end.
+
+Definition upd (last : option bool) (a : oattr) : option bool := match ind_of a with Some b => Some b | None => last end.
+
+Lemma apply_attr_ind : forall r a last, ind_state r last -> attr_xmlish a = true -> attr_no_amount a = true ->
+  ind_state (apply_attr r a) (upd last a).
+Proof.
+  intros r a last [A [X I]] H1 H2. unfold ind_state, xmlish, upd in *.
+  destruct a as [m|s|b|s|b|s|s|s|ns|z|b|b]; cbn in *; try discriminate; auto.
+  all: try (destruct m; try discriminate; auto; fail).
+  all: try (destruct b; auto; fail).
+  all: try (destruct (r_method r) eqn:E; try contradiction; cbn; rewrite ?E; auto).
+Qed.
+
+Lemma fold_attrs_ind : forall o r last, ind_state r last -> forallb attr_xmlish o = true -> forallb attr_no_amount o = true ->
+  ind_state (fold_left apply_attr o r) (fold_left upd o last).
+Proof.
+  induction o as [|a o IH]; intros r last S A B; cbn [fold_left forallb] in *; auto.
+  apply andb_true_iff in A. apply andb_true_iff in B. destruct A, B. apply IH; auto. apply apply_attr_ind; auto.
+Qed.
+
+Lemma process_ind_gen : forall outs r last, ind_state r last ->
+  forallb (forallb attr_xmlish) outs = true -> forallb (forallb attr_no_amount) outs = true ->
+  ind_state (fold_left (fun r o => finish_output (fold_left apply_attr o r)) outs r) (fold_left upd (concat outs) last).
+Proof.
+  induction outs as [|o outs IH]; intros r last S A B; cbn [fold_left concat forallb] in *; auto.
+  apply andb_true_iff in A. apply andb_true_iff in B. destruct A as [A1 A2], B as [B1 B2].
+  rewrite fold_left_app. apply IH; auto.
+  pose proof (fold_attrs_ind o r last S A1 B1) as S1.
+  destruct S1 as [P [X Q]]. destruct (finish_cd _ X) as [_ [_ E]]. rewrite E. split; auto.
+Qed.
+
+Lemma upd_is_last_some : forall l last,
+  fold_left upd l last = fold_left (fun acc a => match ind_of a with Some x => Some x | None => acc end) l last.
+Proof. reflexivity. Qed.
+
+Theorem select_indent_partial : forall outs a,
+  forallb (forallb attr_xmlish) outs = true -> forallb (forallb attr_no_amount) outs = true -> (a_indent a < 0)%Z ->
+  fst (fst (select_coded (process_outputs outs) a)) = spec_indent outs.
+Proof.
+  intros outs a A B H. unfold process_outputs.
+  assert (S0 : ind_state sroot0 None) by (repeat split; exact I).
+  pose proof (process_ind_gen outs sroot0 None S0 A B) as [P [X Q]].
+  unfold select_coded. cbn [fst]. apply Z.ltb_lt in H. rewrite H. rewrite P.
+  unfold spec_indent, last_some.
+  replace (fold_left (fun acc a0 => match match a0 with AIndent b => Some b | _ => None end with Some x => Some x | None => acc end) (concat outs) None)
+    with (fold_left upd (concat outs) None) by reflexivity.
+  unfold output_indent. rewrite Q.
+  assert (M : spec_method outs <> MHtml).
+  { rewrite <- process_outputs_method. unfold process_outputs. unfold xmlish in X. intros E. rewrite E in X. exact X. }
+  destruct (fold_left upd (concat outs) None) as [[|]|]; cbn; try reflexivity.
+  destruct (spec_method outs); try reflexivity. contradiction.
+Qed.
+
+Theorem api_indent_forces_indenting : forall r a, (0 <= a_indent a)%Z ->
+  fst (fst (select_coded r a)) = true /\ snd (fst (select_coded r a)) = Z.to_N (a_indent a).
+Proof.
+  intros r a H. unfold select_coded. cbn [fst snd].
+  assert (E : (a_indent a <? 0)%Z = false) by (apply Z.ltb_ge; exact H). rewrite E.
+  assert (F : (indent_on_when_amount_gt <? a_indent a)%Z = true) by (apply Z.ltb_lt; unfold indent_on_when_amount_gt; lia).
+  rewrite F, ?E. split; reflexivity.
+Qed.
